@@ -42,9 +42,19 @@ var (
 	keys     *Keys
 )
 
+// HmacKeyLen, when set before the first GetKeys call, chooses the length of the shared HMAC key.
+var HmacKeyLen int
+
 func GetKeys() *Keys {
 	keysOnce.Do(func() {
 		k := &Keys{Hmac: []byte("verif-hmac-key-0123456789")}
+		if HmacKeyLen > 0 {
+			// shared keys of other lengths (up to, at and beyond the hash's 64-byte block size)
+			k.Hmac = make([]byte, HmacKeyLen)
+			for i := range k.Hmac {
+				k.Hmac[i] = byte(0x30 + i*7%75)
+			}
+		}
 		k.Ecc, _ = ecdsa.GenerateKey(elliptic.P256(), crand.Reader)
 		k.Ecc384, _ = ecdsa.GenerateKey(elliptic.P384(), crand.Reader)
 		k.Rsa1024, _ = rsa.GenerateKey(crand.Reader, 1024)
